@@ -163,8 +163,26 @@ pub fn gen_tags(rng: &mut Rng, mdir: bool) -> Tags {
 
 fn eval(id: &str, m: &Movie, want: &WantTags, shape: &str, rep: &mut Report, args: &Args) {
     rep.begin(id);
-    let fl = FileLayout { moov_first: true, chunk_order: m.tracks.iter().enumerate().flat_map(|(ti, t)| (0..t.layout.chunks.len()).map(move |c| (ti, c))).collect(), gaps: vec![], mdat_large: false, mdat_to_end: false, free_between: false };
-    let built = build_plain(m, &fl, &|_| {});
+    // one movie in eight ends its user-data box with the QuickTime terminator (a 32-bit zero
+    // after the last item of udta, counted in its size): real .mov / .m4v files have it, and
+    // the tags they carry are tags "the file encodes" all the same. Half of those have the
+    // movie box last, so that the terminator is the end of the file.
+    let hid = crate::prng::hash_str(id);
+    let terminator = hid % 8 == 3;
+    let moov_first = !(terminator && (hid >> 8) % 2 == 0);
+    let fl = FileLayout { moov_first, chunk_order: m.tracks.iter().enumerate().flat_map(|(ti, t)| (0..t.layout.chunks.len()).map(move |c| (ti, c))).collect(), gaps: vec![], mdat_large: false, mdat_to_end: false, free_between: false };
+    let built = build_plain(m, &fl, &|top| {
+        if terminator {
+            for b in top.iter_mut().filter(|b| &b.typ == b"moov") {
+                if let Some(udta) = b.find_mut(&[b"udta"]) {
+                    udta.spare = vec![0u8; 4];
+                }
+            }
+        }
+    });
+    if terminator && m.tags.as_ref().map_or(false, |t| t.place == 0 || t.place == 2) {
+        rep.add(if moov_first { "movies_with_a_terminated_udta" } else { "movies_with_a_terminated_udta_at_the_end_of_the_file" }, 1);
+    }
     let bytes = Rc::new(built.ser.bytes);
     let mut fails = Vec::new();
     match open(&bytes) {
